@@ -24,7 +24,7 @@ if [ $notests -eq 0 ]; then
   files=$(git diff --name-only | sed 's/\.py$/_test.py/' | while read f; do [ -f $f ] && echo $f; done)
   # full suite (the patch must pass all of it)
   # the baseline command (with xdist); baseline: 395 passed, always-failing: filtering_test::test_time_filter_variation{0,1}, pipelines/regrid_test (collection)
-  PYTHONPATH=$S timeout 7200 /venv/bin/python -m pytest -q -p no:cacheprovider --timeout=900 --continue-on-collection-errors -n 6 dinosaur > $S/.tests.log 2>&1
+  PYTHONPATH=$S timeout 7200 /venv/bin/python -m pytest -q -p no:cacheprovider --timeout=900  --continue-on-collection-errors > $S/.tests.log 2>&1
   summary=$(tail -1 $S/.tests.log | tr -d '=' | sed 's/^ *//')
   newfail=$(grep -E '^(FAILED|ERROR) ' $S/.tests.log | grep -v -E 'test_time_filter_variation[01]|pipelines/regrid_test' | cut -c1-120 | tr '\n' ';')
   tests="$summary | failures outside the baseline always-fail set: [${newfail}]"
